@@ -105,6 +105,7 @@ struct VProc {
   long sysno = -1;
   std::map<int, Fault> faults;
   long priority = 0;         // pct
+  std::deque<std::pair<pid_t, int> > deferred;   // ptrace stops of this vproc's tasks that arrived while another vproc ran
   int promoteForks = 0;      // the next N fork()s of the leader become virtual processes of their own (forked workers)
   bool forkedWorker = false; // created by such a fork; parked at birth with the pseudo system call "forked"
   int parentV = -1;
@@ -434,11 +435,19 @@ static void runUntilPark(VProc &v, pid_t exitOf = 0, long *exitResult = 0, bool 
   while (true) {
     if (v.tasks.empty()) { v.done = true; v.parked = false; return; }
     int st = 0;
-    pid_t tid = waitpid(-1, &st, __WALL);
-    if (tid < 0) {
-      if (errno == EINTR) continue;
-      if (errno == ECHILD) { v.done = true; v.parked = false; v.tasks.clear(); return; }
-      die("waitpid: %s", strerror(errno));
+    pid_t tid = 0;
+    if (!exitOf && !v.deferred.empty()) {
+      // a stop of one of this vproc's tasks that was seen while another vproc ran (see below): handle it now
+      tid = v.deferred.front().first; st = v.deferred.front().second;
+      v.deferred.pop_front();
+      if (!v.tasks.count(tid)) continue;
+    } else {
+      tid = waitpid(-1, &st, __WALL);
+      if (tid < 0) {
+        if (errno == EINTR) continue;
+        if (errno == ECHILD) { v.done = true; v.parked = false; v.tasks.clear(); return; }
+        die("waitpid: %s", strerror(errno));
+      }
     }
     std::map<pid_t, int>::iterator it = task2v.find(tid);
     if (it == task2v.end()) {
@@ -454,7 +463,17 @@ static void runUntilPark(VProc &v, pid_t exitOf = 0, long *exitResult = 0, bool 
         else { kill(tid, SIGKILL); ptrace(PTRACE_CONT, tid, 0, 0); }
         continue;
       }
-      die("event from vproc %d while vproc %d runs", it->second, v.id);
+      // A task of a vproc that is not running.  A vproc is "parked" as soon as ONE of its tasks stops at a scheduling
+      // point; a sibling task (e.g. the builder between fork() and the read() it blocks in) may still be on its way to
+      // a blocking call and can hit a traced system call meanwhile.  Its stop is kept (the task stays stopped) and is
+      // handled when its own vproc runs next, so nothing it does under the simulated tree escapes the schedule.
+      if (WIFEXITED(st) || WIFSIGNALED(st)) {
+        if (tid == o.leader) { if (WIFEXITED(st)) o.exitStatus = WEXITSTATUS(st); else o.termSig = WTERMSIG(st); }
+        o.tasks.erase(tid); o.transparentTasks.erase(tid); task2v.erase(tid);
+        continue;
+      }
+      if (WIFSTOPPED(st)) { o.deferred.push_back(std::make_pair(tid, st)); continue; }
+      continue;
     }
     if (WIFEXITED(st) || WIFSIGNALED(st)) {
       if (tid == v.leader) {
